@@ -36,7 +36,7 @@ VARIABLES st, hist, everBig, allocCount
 cfg == [na |-> NA, nb |-> NB, isStd |-> IsStd, pocca |-> POCCA, pocma |-> POCMA, pocs |-> POCS, ae |-> AE,
         soccc |-> SOCCC, max |-> MaxSize, copyable |-> Copyable, nothrowMove |-> NothrowMove,
         nothrowMoveCtor |-> NothrowMove, nothrowMoveAssign |-> NothrowMove, hasMove |-> TRUE, construct |-> FALSE,
-        tracked |-> (Profile \in {"impl", "impl2"}), vector |-> FALSE, flt |-> FALSE, defval |-> 0]
+        tracked |-> (Profile \in {"impl", "impl2"}), vector |-> FALSE, flt |-> FALSE, defval |-> 0, adlswap |-> FALSE]
 
 Absent == [p |-> FALSE]
 
